@@ -1,2 +1,4 @@
 pub mod c01;
 pub mod c08;
+pub mod c06;
+pub mod c02;
